@@ -103,8 +103,16 @@ AllowsS(op) ==
     [] op \in {"raw", "tw"} -> stk # <<>> /\ on \in {1, 3}
     [] OTHER -> FALSE
 
+\* C10: a full decode-then-encode transcription by the recorder (after a reset): on a well-formed document the
+\* output must be the input, byte for byte
+XcEv ==
+  /\ Ev.e = "xc"
+  /\ bad' = IF pr.ok /\ Ev.ret # 1 THEN Msg("C10", "decode-then-encode did not reproduce a well-formed document") ELSE bad
+  /\ mode' = "U" /\ c' = C!Fresh /\ stk' = <<>> /\ on' = 0 /\ hist' = "" /\ full' = <<TRUE, FALSE>>
+  /\ UNCHANGED <<buf, root, maxd, pr, allOk, prevErr, d0, nA, nS>>
+
 CallEv ==
-  /\ Ev.e \notin {"I", "v", "rs"}
+  /\ Ev.e \notin {"I", "v", "rs", "xc"}
   /\ LET ev == Ev
          op == ev.e
          mon == Monitor(ev)
@@ -165,7 +173,7 @@ CallEv ==
 Next == /\ l <= Len(Tr) /\ l' = l + 1
         /\ IF bad # "" /\ Ev.e # "I"
            THEN UNCHANGED <<buf, root, maxd, pr, c, mode, stk, on, allOk, prevErr, d0, bad, nA, nS, hist, full>>
-           ELSE (InitEv \/ AgainEv \/ CallEv) /\ (bad' # "" => PrintT("TRACE-VIOLATION " \o bad'))
+           ELSE (InitEv \/ AgainEv \/ XcEv \/ CallEv) /\ (bad' # "" => PrintT("TRACE-VIOLATION " \o bad'))
         /\ (l' > Len(Tr) => PrintT(<<"TRACE-SUMMARY", Len(Tr), nA', nS'>>))
 Spec == Init /\ [][Next]_vars
 
